@@ -36,7 +36,7 @@ fn expr_hb(e: &BodyExpr, base: i32, cap_hb: i32, memo_hb: i32) -> i32 {
 }
 /// height bound of the main node of a bind whose change-detector node is at most `lc`
 fn body_hb(b: &BodySpec, lc: i32, cap_hb: i32, memo_hb: i32) -> i32 {
-    b.alts.iter().map(|a| expr_hb(a, lc, cap_hb, memo_hb)).max().unwrap_or(0).max(lc) + 1
+    b.alts.iter().chain(b.side.iter().map(|s| &**s)).map(|a| expr_hb(a, lc, cap_hb, memo_hb)).max().unwrap_or(0).max(lc) + 1
 }
 
 pub fn new_bind(w: &Rc<World>, lhs: usize, body: &BodySpec) {
@@ -143,6 +143,10 @@ fn make_bind(
         let alt = &spec2.alts[l.rem_euclid(k) as usize];
         let cx = Cx { w: &w, l: *l, cap: &cap2, scope: (bind_hid, gen), export: spec2.export, hb };
         let (rhs, rhs_hid) = build(&cx, alt);
+        if let Some(side) = &spec2.side {
+            let cx2 = Cx { w: &w, l: *l, cap: &cap2, scope: (bind_hid, gen), export: true, hb };
+            let _ = build(&cx2, side);
+        }
         w.log(Ev::BindRun { bind: bind_hid, gen, l: *l, rhs: rhs_hid });
         run_effects(&w, &spec2.fx, call, Some(MV::I(*l)));
         rhs
@@ -249,7 +253,8 @@ fn build(cx: &Cx, e: &BodyExpr) -> (Incr<i64>, Hid) {
             }
             let (ie, he) = build(cx, inner);
             let spec = Arc::new((**body).clone());
-            let (n, hid) = make_bind(w, &ie, he, spec, cx.cap.clone(), Some(cx.scope), cx.export, false, cx.hb);
+            let keep = cx.export || body.export;
+            let (n, hid) = make_bind(w, &ie, he, spec, cx.cap.clone(), Some(cx.scope), keep, false, cx.hb);
             (n, hid)
         }
         BodyExpr::Memo { m, k } => {
